@@ -1,7 +1,7 @@
 (* C05T - TUP attribute codec and packet-level pack / unpack (serves C03, C05, C06): statements only. *)
 From Coq Require Import List NArith ZArith.
 From TarsV Require Import Gen.Consts Codec.Wire Codec.Skip Codec.Prim Codec.GenCodec Frame.Framing
-  Codec.Tup Codec.Packet Codec.TupCorr Codec.TupProofs Codec.PacketProofs.
+  Codec.Tup Codec.Packet Codec.TupCorr Codec.TupProofs Codec.PacketProofs Codec.TupCost Codec.TupCostProofs.
 (* (TupCorr: the correspondence evaluated on every run is part of this file's closure, so it is rebuilt with it) *)
 Import ListNotations.
 Open Scope N_scope.
@@ -13,6 +13,12 @@ Theorem C05T_tup_decode_total : forall bs : list N,
   t_stat o <> TSFuel /\ t_iter o <= nlen bs /\ t_alloc o <= nlen bs /\ (length (t_rest o) <= length bs)%nat.
 Proof. exact tup_decode_total. Qed.
 Print Assumptions C05T_tup_decode_total.
+
+(* time: the whole of Decode - every lookup, every activation of the skipping functions below it (TupCost.v counts
+   them along the model's own recursion), every loop iteration - is at most 10 steps per input byte plus 9 *)
+Theorem C05T_tup_cost_linear : forall bs : list N, (tup_cost bs <= 10 * length bs + 9)%nat.
+Proof. exact tup_cost_linear. Qed.
+Print Assumptions C05T_tup_cost_linear.
 
 (* the same statement is false of the decoder of the pinned snapshot (key optional): six bytes, a million iterations *)
 Theorem C05T_pinned_total_refuted :
